@@ -40,6 +40,9 @@ if "--no-confirm" not in sys.argv:
     finally:
         sh(f"git -C /repo worktree remove --force {wt}")
 
+if "--confirm-only" in sys.argv:
+    json.dump(meta, open(meta_p, "w"), indent=1)
+    sys.exit(0)
 checks = [prop] + meta.get("also", [])
 st = sh("git -C /repo status --porcelain --untracked-files=no").stdout.strip()
 assert st == "", "/repo has uncommitted tracked changes: " + st
